@@ -294,12 +294,19 @@ func c18Verify(c *Ctx, dec *ssa.Function) {
 	fn := f.Function
 	b := ana.NewBuilder(c.P, fn)
 	Y := "ext#0(call<*>(p0))"
-	D := "ext#0(call<(*" + vrfPkg + "Proof).SetBytes>(alloc<" + vrfPkg + "Proof>, p2))"
-	gates := []struct{ name, acc, rej string }{
-		{"key-canonical", "bin<==>(ext#1(call<*>(p0)), nil)", "bin<!=>(ext#1(call<*>(p0)), nil)"},
-		{"key-prime-order", "call<*>(" + Y + ")", "un<!>(call<*>(" + Y + "))"},
-		{"proof-decodes", "bin<==>(ext#1(call<(*" + vrfPkg + "Proof).SetBytes>(alloc<" + vrfPkg + "Proof>, p2)), nil)", "bin<!=>(ext#1(call<(*" + vrfPkg + "Proof).SetBytes>(alloc<" + vrfPkg + "Proof>, p2)), nil)"},
-		{"challenge-equal", "bin<==>(call<(*ed.Scalar).Equal>(load(faddr<#1>(" + D + ")), $c), 1)", "bin<!=>(call<(*ed.Scalar).Equal>(load(faddr<#1>(" + D + ")), $c), 1)"},
+	// the decoded proof: through the SetBytes wrapper, or new(Proof) decoded in place by UnmarshalBinary
+	D, decOK, decBad := c18Proof("p2")
+	// the prime-order test: a boolean helper applied to the decoded key (decided below), or 8·Y compared with the identity in place
+	inl := "(call<(*ed.Point).Equal>(obj(alloc<ed.Point>, call<(*ed.Point).MultByCofactor>(self, " + Y + ")), " + glob("identityPoint") + "), 1)"
+	type gate struct {
+		name     string
+		acc, rej []string
+	}
+	gates := []gate{
+		{"key-canonical", []string{"bin<==>(ext#1(call<*>(p0)), nil)"}, []string{"bin<!=>(ext#1(call<*>(p0)), nil)"}},
+		{"key-prime-order", []string{"call<*>(" + Y + ")", "bin<!=>" + inl}, []string{"un<!>(call<*>(" + Y + "))", "bin<==>" + inl}},
+		{"proof-decodes", decOK, decBad},
+		{"challenge-equal", []string{"bin<==>(call<(*ed.Scalar).Equal>(load(faddr<#1>(" + D + ")), $c), 1)"}, []string{"bin<!=>(call<(*ed.Scalar).Equal>(load(faddr<#1>(" + D + ")), $c), 1)"}},
 	}
 	var rejects []ana.Edge
 	var trues, falses []ana.ReturnCase
@@ -314,7 +321,7 @@ func c18Verify(c *Ctx, dec *ssa.Function) {
 	var validateFn *ssa.Function
 	var chalTerm *ana.Term
 	for _, g := range gates {
-		acc := edgesMatching(b, g.acc)
+		acc := edgesMatching(b, g.acc...)
 		for _, rc := range trues {
 			r.Check(len(acc) > 0 && mustPass(fn, rc.Block, plainEdges(acc)), "C18.verify-gates."+g.name, c.ipos(rc.Ret), "`return true` passes the %s gate", g.name)
 		}
@@ -327,14 +334,14 @@ func c18Verify(c *Ctx, dec *ssa.Function) {
 			}
 		}
 		if g.name == "challenge-equal" && len(acc) > 0 {
-			bd, _ := ana.MatchX(c.P, g.acc, acc[0].Lit)
+			bd, _ := ana.MatchX(c.P, g.acc[0], acc[0].Lit)
 			chalTerm = bd["$c"]
 		}
 	}
 	// the negations of the gates, in Verify or as the reasons for which a helper it tests reports failure
 	var rejPats []string
 	for _, g := range gates {
-		rejPats = append(rejPats, g.rej)
+		rejPats = append(rejPats, g.rej...)
 	}
 	rejects = c.rejectEdges(b, rejPats...)
 	avoid := ana.ReachableAvoiding(fn, rejects)
@@ -464,20 +471,34 @@ func c18Codec(c *Ctx, dec *ssa.Function) {
 	if f := c.fn("pkg/vrf", "ProofToHash"); f != nil {
 		fn := f.Function
 		b := ana.NewBuilder(c.P, fn)
-		sb := "call<(*" + vrfPkg + "Proof).SetBytes>(alloc<" + vrfPkg + "Proof>, p0)"
+		D, decOK, _ := c18Proof("p0")
 		for _, e := range ana.Exits(fn) {
 			if e.Panic {
 				continue
 			}
 			vt, et := b.Of(e.Results[0], e.Instr), b.Of(e.Results[1], e.Instr)
 			if et.Is("nil") {
-				acc := plainEdges(edgesMatching(b, "bin<==>(ext#1("+sb+"), nil)"))
-				r.Check(matches("call<(*"+vrfPkg+"Proof).Hash>(ext#0("+sb+"))", vt) && exitMustPass(fn, e, acc), "C18.codec-layout.proof-to-hash", c.ipos(e.Instr), "ProofToHash = Hash() of the successfully decoded proof")
+				acc := plainEdges(edgesMatching(b, decOK...))
+				r.Check(matches("call<(*"+vrfPkg+"Proof).Hash>("+D+")", vt) && exitMustPass(fn, e, acc), "C18.codec-layout.proof-to-hash", c.ipos(e.Instr), "ProofToHash = Hash() of the successfully decoded proof")
 			} else {
-				r.Check(vt.Is("nil") && matches("ext#1("+sb+")", et), "C18.codec-layout.proof-to-hash-error", c.ipos(e.Instr), "decode error propagated with no hash")
+				r.Check(vt.Is("nil") && matches(c18ProofErr("p0"), et), "C18.codec-layout.proof-to-hash-error", c.ipos(e.Instr), "decode error propagated with no hash")
 			}
 		}
 	}
+}
+
+// c18Proof: the proof decoded from the byte string `arg` — through the exported wrapper (new(Proof).SetBytes(arg),
+// decided by C18.codec-layout.setbytes) or by new(Proof).UnmarshalBinary(arg) in place — with the literals that hold
+// on the "decoded" and "did not decode" edges.
+func c18Proof(arg string) (D string, ok, bad []string) {
+	sb := "call<(*" + vrfPkg + "Proof).SetBytes>(alloc<" + vrfPkg + "Proof>, " + arg + ")"
+	um := "call<(*" + vrfPkg + "Proof).UnmarshalBinary>(alloc<" + vrfPkg + "Proof>, " + arg + ")"
+	D = "alt(ext#0(" + sb + "), obj(alloc<" + vrfPkg + "Proof>, call<(*" + vrfPkg + "Proof).UnmarshalBinary>(self, " + arg + ")))"
+	return D, []string{"bin<==>(ext#1(" + sb + "), nil)", "bin<==>(" + um + ", nil)"}, []string{"bin<!=>(ext#1(" + sb + "), nil)", "bin<!=>(" + um + ", nil)"}
+}
+
+func c18ProofErr(arg string) string {
+	return "alt(ext#1(call<(*" + vrfPkg + "Proof).SetBytes>(alloc<" + vrfPkg + "Proof>, " + arg + ")), call<(*" + vrfPkg + "Proof).UnmarshalBinary>(alloc<" + vrfPkg + "Proof>, " + arg + "))"
 }
 
 func c18Hashes(c *Ctx, dec *ssa.Function) {
